@@ -1,6 +1,7 @@
 #!/bin/bash
 # Applies every kept seeded change to /repo in turn, runs the quick check that is recorded as
 # catching it, reverts, and prints a table. Usage: tools_seedall.sh [pattern]
+# NOTE: /repo is patched while this runs: run nothing else that builds from /repo (checks, vp run) at the same time.
 cd "$(dirname "$0")"
 pat=${1:-.}
 for d in seeded/*/; do
